@@ -41,11 +41,12 @@ def snapshot(U):
     for B in P["port"]:
         S["containment"][id(B)] = [id(x) for x in B.pins]
         S["parents"][id(B)] = id(B.definition) if B.definition is not None else None
-        S["attrs"][id(B)] = [B.direction.name, B.is_downto, bool(B.is_scalar), B.lower_index]
+        S["attrs"][id(B)] = [B.direction.name, B.is_downto, bool(B.is_scalar), B.lower_index,
+                             getattr(B, "_is_scalar", None)]   # the stored flag, not only the view
     for B in P["cable"]:
         S["containment"][id(B)] = [id(x) for x in B.wires]
         S["parents"][id(B)] = id(B.definition) if B.definition is not None else None
-        S["attrs"][id(B)] = [B.is_downto, bool(B.is_scalar), B.lower_index]
+        S["attrs"][id(B)] = [B.is_downto, bool(B.is_scalar), B.lower_index, getattr(B, "_is_scalar", None)]
     for I in P["instance"]:
         S["parents"][id(I)] = id(I.parent) if I.parent is not None else None
         S["instances"][id(I)] = [id(I.reference) if I.reference is not None else None,
